@@ -137,6 +137,9 @@ def history_case(ctx, tm, S, rng):
         elif r < 0.6:
             a2, b2, _m2, _t2 = timedom.gen_time_domain(rng, min_span_ms=1000)
             ops.append(["domain", [a2, b2]])
+        elif r < 0.68:
+            # the range list the scale hands out is edited in place and passed to range() again
+            ops.append(["range-edit-in-place", rng.choice([0, 1]), rng.choice([-250.0, 17.5, 1234.0, 3e-9])])
         elif r < 0.75:
             ops.append(["nice", rng.choice([None, 5, 20])])
         elif r < 0.9:
@@ -156,6 +159,12 @@ def run_history(ctx, tm, S, case):
             o = objs[-1] if op[0] != "copy" else objs[0]
             if op[0] == "range":
                 o.range(list(op[1]))
+            elif op[0] == "range-edit-in-place":
+                lst = o.range()
+                if isinstance(lst, list) and lst[1 - op[1]] != op[2]:
+                    lst[op[1]] = op[2]
+                    o.range(lst)
+                    ctx.path("range-list-edited-in-place-and-set-again")
             elif op[0] == "domain":
                 o.domain(op[1])
             elif op[0] == "nice":
